@@ -17,6 +17,10 @@ CONSTANTS
  DevFetchAclOnRequestName = FALSE
  DevStaleOwnedOnSessionReplace = FALSE
  DevLeaseErrMisindexed = FALSE
+ MidOn = TRUE
+ DevAclCacheNoAction = FALSE
+ DevLateAcquireAfterRelease = FALSE
+ DevReacquireUnconditional = FALSE
 INIT TInit
 NEXT TNext
 POSTCONDITION Reached
